@@ -642,6 +642,107 @@ func (c *Ctx) c19Nils() {
 	}
 }
 
+// host objects (Wrap): a pointer type and an uncomparable map type, with the whole Object interface
+type c19Obj struct{ id int }
+
+func (o *c19Obj) Get(k goat.Value) (goat.Value, bool) { return goat.Int(o.id), true }
+func (o *c19Obj) Set(k, v goat.Value)                 {}
+func (o *c19Obj) Len() int                            { return 1 }
+func (o *c19Obj) Range() func() (goat.Value, goat.Value, bool) {
+	return func() (goat.Value, goat.Value, bool) { return goat.Nil(), goat.Nil(), false }
+}
+func (o *c19Obj) Append(items ...goat.Value) goat.Value { return goat.Wrap(o) }
+func (o *c19Obj) Delete(k goat.Value)                   {}
+func (o *c19Obj) Slice(i, j int) goat.Value             { return goat.Wrap(o) }
+func (o *c19Obj) GetAttr(k string) goat.Value           { return goat.Int(o.id) }
+func (o *c19Obj) SetAttr(k string, v goat.Value)        {}
+
+type c19MapObj map[string]int
+
+func (o c19MapObj) Get(k goat.Value) (goat.Value, bool) { return goat.Int(o[k.String()]), true }
+func (o c19MapObj) Set(k, v goat.Value)                 {}
+func (o c19MapObj) Len() int                            { return len(o) }
+func (o c19MapObj) Range() func() (goat.Value, goat.Value, bool) {
+	return func() (goat.Value, goat.Value, bool) { return goat.Nil(), goat.Nil(), false }
+}
+func (o c19MapObj) Append(items ...goat.Value) goat.Value { return goat.Wrap(o) }
+func (o c19MapObj) Delete(k goat.Value)                   {}
+func (o c19MapObj) Slice(i, j int) goat.Value             { return goat.Wrap(o) }
+func (o c19MapObj) GetAttr(k string) goat.Value           { return goat.Int(len(o)) }
+func (o c19MapObj) SetAttr(k string, v goat.Value)        {}
+
+// c19Objects: a wrapped host object read back through a script is the object that went in (Unwrap), and the script
+// can tell two objects apart and recognise one it has seen: == is the identity of the host's value (the sentinel
+// idiom err == ErrX; fix 1a4ef26), an object of an uncomparable host type is unequal to everything instead of a panic
+func (c *Ctx) c19Objects() {
+	objs := []*c19Obj{{id: 10}, {id: 11}}
+	vm := goat.New()
+	vm.Set("main.mk", goat.NewFunc(1, 1, func(vm *goat.VM, args []goat.Value) goat.Value { return goat.Wrap(objs[args[0].Int()]) }))
+	vm.Set("main.mkmap", goat.NewFunc(0, 1, func(vm *goat.VM, args []goat.Value) goat.Value { return goat.Wrap(c19MapObj{"a": 1}) }))
+	vm.Set("main.Sentinel", goat.Wrap(objs[1]))
+	src := "import \"errors\"\nvar ErrX = errors.New(\"x\")\nvar ErrY = errors.New(\"x\")\nfunc pass(v any) any { return v }\nfunc find(k int) error {\n\tif k == 1 {\n\t\treturn ErrX\n\t}\n\treturn nil\n}\n" +
+		"a := mk(0)\nb := mk(0)\nd := mk(1)\nu := mkmap()\nheld := []any{a, d}\nbyName := map[string]any{\"a\": a}\n" +
+		"r := []bool{a == b, a != b, a == d, a == nil, nil == a, a != nil, pass(a) == a, held[0] == b, held[1] == b, byName[\"a\"] == a, d == Sentinel, a == Sentinel, u == u, u != u, u == a,\n\tfind(1) == ErrX, find(1) == ErrY, find(1) != ErrX, find(0) == nil, find(1) == nil, ErrX == ErrX, ErrX == ErrY}\nr"
+	rets, err := vm.Eval(fstest.MapFS{}, "main", src)
+	c.Rep.Oracle["host-object-identity"]++
+	want := "ok [true false false false false true true true false true true false false true false true false false true false true false]"
+	if got := c19Show(rets, err); got != want {
+		c.Rep.Violate(Violation{Kind: "oracle", Cut: "host-object-identity", Input: src, Impl: got, Oracle: want})
+	}
+	for i, name := range []string{"a", "d"} {
+		c.Rep.Oracle["host-object-identity"]++
+		if got := vm.Get("main." + name).Unwrap(); got != goat.Object(objs[i]) {
+			c.Rep.Violate(Violation{Kind: "oracle", Cut: "host-object-identity", Input: "Unwrap of main." + name, Impl: fmt.Sprint(got), Oracle: "the object the native returned"})
+		}
+	}
+	for _, q := range []struct {
+		what string
+		a, b goat.Value
+		want bool
+	}{{"Wrap(o).Equals(Wrap(o))", goat.Wrap(objs[0]), goat.Wrap(objs[0]), true}, {"Wrap(o).Equals(Wrap(p))", goat.Wrap(objs[0]), goat.Wrap(objs[1]), false},
+		{"Wrap(o).Equals(Nil())", goat.Wrap(objs[0]), goat.Nil(), false}, {"Wrap(o).Equals(Int(10))", goat.Wrap(objs[0]), goat.Int(10), false},
+		{"Wrap(map).Equals(Wrap(map))", goat.Wrap(c19MapObj{}), goat.Wrap(c19MapObj{}), false}} {
+		c.Rep.Oracle["host-object-identity"]++
+		if e := try(func() {
+			if got := q.a.Equals(q.b); got != q.want {
+				c.Rep.Violate(Violation{Kind: "oracle", Cut: "host-object-identity", Input: q.what, Impl: fmt.Sprint(got), Oracle: fmt.Sprint(q.want)})
+			}
+		}); e != nil {
+			c.Rep.Violate(Violation{Kind: "crash", Cut: "host-object-identity", Input: q.what, Impl: fmt.Sprint("panic: ", e), Oracle: fmt.Sprint(q.want)})
+		}
+	}
+}
+
+// c19ValueFormWithArgs: a native of the form func(vm) Value cannot read arguments, but registered with an arity it
+// still delivers its result (not the first argument; fix b462b86), and a wrong argument count is an error
+func (c *Ctx) c19ValueFormWithArgs() {
+	for argc := 0; argc <= 6; argc++ {
+		vm := goat.New()
+		calls := 0
+		vm.Set("main.nat", goat.NewFunc(argc, 1, func(vm *goat.VM) goat.Value { calls++; return goat.Int(99) }))
+		var args []string
+		var hostArgs []goat.Value
+		for i := 0; i < argc; i++ {
+			args = append(args, fmt.Sprint(i+1))
+			hostArgs = append(hostArgs, goat.Int(i+1))
+		}
+		src := "keep := 5\nx := nat(" + strings.Join(args, ", ") + ")\ny := nat(" + strings.Join(args, ", ") + ") + 1\n[]int{keep, x, y}"
+		rets, err := vm.Eval(fstest.MapFS{}, "main", src)
+		c.Rep.Oracle["value-form-with-arguments"]++
+		if got, want := c19Show(rets, err)+fmt.Sprint(" calls=", calls), "ok [5 99 100] calls=2"; got != want {
+			c.Rep.Violate(Violation{Kind: "oracle", Cut: "value-form-with-arguments", Input: fmt.Sprintf("NewFunc(%d, 1, func(vm) Value): %s", argc, src), Impl: got, Oracle: want})
+		}
+		st, err := vm.Call("main.nat", 1, hostArgs...)
+		c.Rep.Oracle["value-form-with-arguments"]++
+		if got, want := c19Show(st, err), "ok 99"; got != want {
+			c.Rep.Violate(Violation{Kind: "oracle", Cut: "value-form-with-arguments", Input: fmt.Sprintf("Call of NewFunc(%d, 1, func(vm) Value) with %d arguments", argc, argc), Impl: got, Oracle: want})
+		}
+		if _, err := vm.Call("main.nat", 1, append(hostArgs, goat.Int(0))...); err == nil {
+			c.Rep.Violate(Violation{Kind: "oracle", Cut: "value-form-with-arguments", Input: fmt.Sprintf("Call of NewFunc(%d, 1, func(vm) Value) with %d arguments", argc, argc+1), Impl: "no error", Oracle: "an error (incorrect args)"})
+		}
+	}
+}
+
 // c19Redefined: Call and Func pass the parameters to the function as it is defined NOW: after a script function was
 // declared again with other parameter types (variadic element type, fixed parameter types, arity), the host's values
 // reach the new body unchanged
@@ -790,6 +891,8 @@ func runC19(c *Ctx) error {
 	c.c19YieldKeepsArgs()
 	c.c19Redefined()
 	c.c19Nils()
+	c.c19Objects()
+	c.c19ValueFormWithArgs()
 	c.c19RoundTrips(nr)
 	return nil
 }
